@@ -20,6 +20,25 @@ def do_replay(prop, path):
         rec = json.load(f)
     clauses = {c.name: c for c in mod.clauses(rec.get("tier", "thorough"))}
     cl = clauses.get(rec["clause"])
+    if cl is not None and rec.get("site") in ("stalled", "shard_exception"):
+        # the whole shard is the replayable unit: run it again in one forked worker under the stall limit
+        from . import findings as F
+        import multiprocessing as mp
+        si = rec["case"]["shard"]
+        engine._CLAUSES, engine._PROP, engine._KNOWN = [cl], prop, F.for_property(prop)
+        stall = float(os.environ.get("VMC_STALL_TIMEOUT", "0")) or engine.STALL_TIMEOUT
+        with mp.get_context("fork").Pool(1) as pool:
+            try:
+                d = pool.apply_async(engine._work, ((0, si),)).get(timeout=stall)
+            except mp.TimeoutError:
+                d = None
+        if d is None or d["error"] or d["nviol"]:
+            print("replay: shard %d of %s %s" % (si, rec["clause"], "did not return" if d is None else
+                                                 (d["error"] or "reports %d violation(s)" % d["nviol"])))
+            print("VIOLATION property=%s replay=%s" % (prop, path))
+            return 1
+        print("replay: shard %d of %s/%s now completes without violation" % (si, prop, rec["clause"]))
+        return 0
     if cl is None or cl.replay is None:
         print("replay: clause %r has no replay function" % rec["clause"])
         return 2
